@@ -328,7 +328,7 @@ def body(c):
     # renamed arguments feeding complexity rules: every document with <=4 nodes over the slice of the object with
     # `rename_args = "snake_case"` (S.pages(page_size)), the individually renamed argument (S.top(topN)) and the multi-word
     # argument under the default rule (Query.paged(perPage)), up to two arguments (omitted / 0 / 1 / 4 / $c)
-    jobs.append(lambda: gen_docs(c, 4 if c.quick else 5, 0, 0, 2, 2, "renamed-args", focus=RENAMED_FOCUS))
+    jobs.append(lambda: gen_docs(c, 4, 0, 0, 2, 2, "renamed-args", focus=RENAMED_FOCUS))
     if not c.quick:
         jobs.append(lambda: gen_docs(c, 5, 0, 0, 0, 0, "plain"))      # undecorated, 5 nodes, incl. re-spread fragments
     with ThreadPoolExecutor(len(jobs)) as ex:
@@ -396,12 +396,17 @@ def body(c):
         docs.append(d)
         ndeep += 1
     nrenamed = 0
+    nrenamed_total = len(renamed)
+    if c.quick:      # all with <= 3 nodes (every variable form), a seeded sample of the 4-node ones (two variable forms as elsewhere)
+        big_r = [x for x in renamed if len(json.loads(x)) > 3]
+        renamed = [x for x in renamed if len(json.loads(x)) <= 3] + sorted(rng.sample(big_r, min(150, len(big_r))))
     for fs in renamed:
         d = tree_from_flat(json.loads(fs), rng, arg_names)
         if conflicts(d):
             dropped += 1
             continue
-        d["_allforms"] = True
+        if not c.quick or len(json.loads(fs)) <= 3:
+            d["_allforms"] = True
         docs.append(d)
         nrenamed += 1
     templates = placement_templates()
@@ -572,7 +577,7 @@ def body(c):
             ren_walk(fr["sels"], o)
     if nrenamed == 0 or min(ren.values()) < 20:
         raise vlib.ToolError("vacuous: renamed arguments feeding complexity rules: %d documents, uses %s" % (nrenamed, ren))
-    c.cov["renamed_arguments"] = {"documents": nrenamed, "uses_with_non_default_value": ren}
+    c.cov["renamed_arguments"] = {"documents": nrenamed, "generated": nrenamed_total, "uses_with_non_default_value": ren}
     c.cov["documents"] = len(docs)
     c.cov["fragment_at_several_depths"] = {"tlc_documents": ndeep, "tlc_generated": ndeep_total, "templates": len(templates), "random_documents_respread": nrespread,
                                            "limits": "every value 0..measure+1 for depth and nesting, measure-4..measure+1 for complexity"}
@@ -585,11 +590,11 @@ def body(c):
                      "systematic template family (chain depth 4, 2-3 placements, 5 fragment bodies, through a second fragment), each run with every limit between "
                      "the placements' measures; every document with <=%d nodes over the slice s/pages/top/paged/id/n with up to two arguments (a multi-word argument feeding a "
                      "rule on an object with rename_args = snake_case, one renamed on the argument itself, one under the default camelCase rule; literal and $c in "
-                     "all five variable forms): %d documents -- plus %d seeded random documents (4-14 nodes, up to 5 directives per field, fragments re-spread at the same and at other depths) and %d "
+                     "all five variable forms): %d of %d documents -- plus %d seeded random documents (4-14 nodes, up to 5 directives per field, fragments re-spread at the same and at other depths) and %d "
                      "two-operation documents; crossed with the ways of defining/supplying $c; each run on the static family and (without @tag) its dynamic twin "
                      "with each limit at measure-1, measure, measure+1 (measure from TLC), one all-limits configuration and one fast-validation run; "
                      "distinct by (text, variables, flavour, mode, limits); every run is non-trivial (limit within 1 of the measure)"
-                     % (ndec, n, ndec, total, " (all of them)" if exhaustive else " (seeded sample of each set)", dropped, 4 if c.quick else 5, nrenamed, nrand, ntwo))
+                     % (ndec, n, ndec, total, " (all of them)" if exhaustive else " (seeded sample of each set)", dropped, 4, nrenamed, nrenamed_total, nrand, ntwo))
     for o in obs[:1] + [o for o in obs if o["doc"]["frags"]][:2]:
         c.sample({"text": o["text"], "vars": o["vars"], "measures": meas[o["id"]],
                   "runs": [{"flavour": r["flavour"], "limits": {k: x for k, x in r["limits"].items() if x >= 0}, "rejected": r["obs"]["rejected"], "ran": r["obs"]["ran"], "verdict": rv}
